@@ -27,8 +27,14 @@ RA = "esutil.random."
 GLOBAL_RNG_OK = {"RandomState", "default_rng", "Generator", "SeedSequence"}
 
 
+# rules that keep their verdict however the code is laid out (decided by term equality, effect analysis or dominance over
+# resolved calls); every other rule of this check is a template rule (vcheck.core.Check.obt)
+SEMANTIC = ('R19.cap', 'R19.chol', 'R19.gen')
+
+
 def run(chk):
     repo = PyRepo()
+    chk.set_templates(repo, semantic=SEMANTIC)
     chk.explanation = MANIFEST["text"]
     chk.trusted = ["numpy.random Generator / RandomState API", "scipy.integrate.cumulative_trapezoid", "sympy normaliser"]
     chk.floor = 45
